@@ -8,9 +8,16 @@ CHECKS = {
  "C01": ("§4 C01", "for the listed Type 1/2/3/4 layouts (data-area sizes, control-TLV placements, Nbr/Nbw/Nmaxb, symbolic MLe/MLc over 1..FFFFh, the library's own Type 3 emulation) and message lengths from boundary sets, with all message bytes and all previous tag contents symbolic: the setter succeeds up to the reported capacity, a fresh activation reads back exactly the octets (proved as a formula), capacity <= what the layout holds, oversize is rejected before any command. Exhaustive over paths within those bounds."),
  "C02": ("§4 C02", "power cut before each state-changing command (lazy symbolic cut point) of an NDEF write on Type 1/2/3/4 worlds incl. NDEF TLV offsets 0..3 mod 4 and old/new lengths on both sides of 254/255; a fresh reader then sees none/unreadable/empty/old/new, proved for all contents. Known finding: Type 1 dynamic 3-byte length across a block boundary."),
  "C03": ("§4 C03", "every write command of an NDEF write or format(wipe) on Type 1/2/3/4 worlds leaves all bytes outside the NDEF message area (computed by the harness from the layout it generated) at their symbolic previous values, after every prefix of the operation, and addresses a unit that intersects the area."),
+ "C05": ("§4 C05", "two real DataLinkConnections in ESTABLISHED state (and two real link controllers with collect/dispatch as the transfer step), symbolic RW of both ends and symbolic initial sequence offsets (modulo-16 wrap from the first step), all histories of up to 4 (thorough 6) operations from send/recv/transfer/busy/close: in-order exactly-once delivery, N(S)/N(R) consistency, outstanding <= announced RW, EMSGSIZE, checked against a reference sliding-window model. Blocking calls are events (WouldBlock); real thread schedules are outside the claim."),
  "C06": ("§4 C06", "real SNEP client and server fragment code as a strictly alternating pair over a reliable socket model with symbolic MIU (6..24 and real-range values), message bytes, acceptable lengths; handover with concrete messages and symbolic MIU: octets arrive identical, once; oversize is refused whole. Layer composition down to radio frames is outside the claim."),
+ "C08": ("§4 C08", "activate + tag.ndef/length/capacity/octets/has_changed on mutations of valid Type 1-4 layouts whose mutated fields are symbolic (TLV length fields, capability container, control TLV values, attribute block incl. checksum, CC file fields, NLEN, ATS of 1..7 bytes, SENSB protocol info, short READ BINARY answers), a fully symbolic small Type 2 image, and silence from every command index: no exception, None or length <= capacity with the message inside the data area, bounded number of commands."),
+ "C10": ("§4 C10", "collect() on a real link controller filled by scripts of up to 3 (thorough 5) queued items with a symbolic send-miu 128..2175 and aggregation on/off: every frame's information field <= send-miu, payloads within the receiver's MIU, decode(frame) dispatches the same PDUs in order; unit obligations for ServiceDiscovery/TCO dequeue with a symbolic budget."),
  "C11": ("§4 C11", "for every field value of the 14 PDU classes (symbolic, full ranges) decode(encode(p)) equals p field-wise and len(p)==len(encode(p)); for every byte string up to 6 (thorough 8) bytes decode is DecodeError or agrees with an independent reference decoder and re-encodes to an equal PDU; sub-PDUs of an aggregate equal the decoding of their own bytes. Exhaustive within those bounds."),
+ "C13": ("§4 C13", "ContactlessFrontend.exchange through the real pn531/pn532/pn533/rcs956/acr122/arygon/rcs380/udp drivers on a host-link model: symbolic chip status bytes (all 256 values; RC-S380 status words), one injected host-link fault (IOError at each command, short/garbled/error frame): outcome is data, a CommunicationError subclass mapped as documented, or IOError. Known findings: several driver-internal exceptions escape."),
+ "C14": ("§4 C14", "frames written by pn53x/ACR122/RC-S380 for symbolic payloads and boundary lengths are accepted by an independent parser; a fully symbolic response of every length 0..10 (thorough 16) is returned as data only if an independent validator accepts it, else IOError; calculate_crc (if-converted from the current AST, validated on vectors each run) equals ISO/IEC 13239 for all messages up to 7 bytes in one query and up to 24 by solver-checked prefix induction. Known findings in pn53x Chipset.command."),
  "C15": ("§4 C15", "every driver call made through every public ContactlessFrontend entry point within the C18 scenario bounds happens with the frontend lock held and the device installed; every syntactic self.device call site (AST scan of the current source) is reached by an explored path. The lock implementation and real thread schedules are outside the claim."),
+ "C16": ("§4 C16", "one burst of 1..3 (thorough 4) failing exchanges (timeout/transmission/protocol; command or response lost) at every command position of read/write/presence/format/protect/dump on one world per tag type: shorter bursts than the documented attempts are absorbed with the fault-free result, otherwise TagCommandError with the matching errno or the documented None/False; bounded attempts; an answered write is not re-sent."),
+ "C17": ("§4 C17", "histories of up to 3 (thorough 5) socket/bind/listen/close/sendto/resolve/connect-by-name operations on one or two real link controllers with symbolic addresses, SAPs and payloads, prefixes that exhaust the named and dynamic ranges, checked against a reference address table."),
  "C18": ("§4 C18", "connect()/sense()/listen()/exchange() over a recording scripted driver with enumerated option sets, callback results, terminate times and environments (tag, peer, reader), symbolic tag/peer bytes: callback order and counts, return values and driver-call discipline as documented. Known findings: on-release skipped when the driver raises after on-connect; SystemExit from llc.run."),
  "C20": ("§4 C20", "NTAG21x/Ultralight EV1: authenticate(p) true iff stored PWD/PACK equal the key derived from p, for all passwords, stored values and in-transit PACK changes (pure solver claim over 2^96 pairs). FeliCa Lite/Lite-S: the same under an ideal block cipher replacing pyDes (uninterpreted, injective), incl. read_with_mac tamper detection and write_with_mac; the DES computation itself is outside the claim."),
 }
